@@ -362,7 +362,8 @@ class File(resource.Resource, filepath.FilePath[str]):
             kind, value = range.split(b"=", 1)
         except ValueError:
             raise ValueError("Missing '=' separator")
-        kind = kind.strip()
+        # Range unit names are case-insensitive (RFC 9110, section 14.1).
+        kind = kind.strip().lower()
         if kind != b"bytes":
             raise ValueError(f"Unsupported Bytes-Unit: {kind!r}")
         unparsedRanges = list(filter(None, map(bytes.strip, value.split(b","))))
@@ -374,14 +375,14 @@ class File(resource.Resource, filepath.FilePath[str]):
                 raise ValueError(f"Invalid Byte-Range: {byteRange!r}")
             if start:
                 try:
-                    start = int(start)
+                    start = _parseRangeInt(start)
                 except ValueError:
                     raise ValueError(f"Invalid Byte-Range: {byteRange!r}")
             else:
                 start = None
             if end:
                 try:
-                    end = int(end)
+                    end = _parseRangeInt(end)
                 except ValueError:
                     raise ValueError(f"Invalid Byte-Range: {byteRange!r}")
             else:
@@ -395,6 +396,9 @@ class File(resource.Resource, filepath.FilePath[str]):
                 # both is invalid.
                 raise ValueError(f"Invalid Byte-Range: {byteRange!r}")
             parsedRanges.append((start, end))
+        if not parsedRanges:
+            # A range-set has at least one range-spec.
+            raise ValueError("No Byte-Range given")
         return parsedRanges
 
     def _rangeToOffsetAndSize(self, start, end):
@@ -428,7 +432,8 @@ class File(resource.Resource, filepath.FilePath[str]):
         """
         size = self.getFileSize()
         if start is None:
-            start = size - end
+            # A suffix longer than the resource selects the whole resource.
+            start = max(0, size - end)
             end = size
         elif end is None:
             end = size
@@ -549,7 +554,9 @@ class File(resource.Resource, filepath.FilePath[str]):
             request.setHeader(
                 b"content-range", networkString("bytes */%d" % (self.getFileSize(),))
             )
-            return [], b""
+            # A single empty part with no separator: the producer writes
+            # nothing and finishes the request.
+            return [(b"", 0, 0)]
         finalBoundary = b"\r\n--" + boundary + b"--\r\n"
         rangeInfo.append((finalBoundary, 0, 0))
         request.setResponseCode(http.PARTIAL_CONTENT)
@@ -600,7 +607,10 @@ class File(resource.Resource, filepath.FilePath[str]):
         try:
             parsedRanges = self._parseRangeHeader(byteRange)
         except ValueError:
-            log.msg(f"Ignoring malformed Range header {byteRange.decode()!r}")
+            log.msg(
+                "Ignoring malformed Range header "
+                f"{byteRange.decode('iso-8859-1')!r}"
+            )
             self._setContentHeaders(request)
             request.setResponseCode(http.OK)
             return NoRangeStaticProducer(request, fileForReading)
@@ -694,6 +704,20 @@ class File(resource.Resource, filepath.FilePath[str]):
         f.indexNames = self.indexNames[:]
         f.childNotFound = self.childNotFound
         return f
+
+
+def _parseRangeInt(value: bytes) -> int:
+    """
+    Parse one position or length of a Range header: decimal digits, possibly
+    surrounded by whitespace.  Unlike L{int}, signs and underscores are
+    refused.
+
+    @raise ValueError: if C{value} is not a sequence of decimal digits.
+    """
+    value = value.strip()
+    if not value.isdigit():
+        raise ValueError(f"Not a decimal number: {value!r}")
+    return int(value)
 
 
 @implementer(interfaces.IPullProducer)
@@ -833,10 +857,15 @@ class MultipleRangeStaticProducer(StaticProducer):
                 dataLength += len(self.partBoundary)
                 data.append(self.partBoundary)
                 self.partBoundary = None
+            # The boundary may have taken dataLength past bufferSize; never
+            # ask for a negative number of bytes.
             p = self.fileObject.read(
-                min(
-                    self.bufferSize - dataLength,
-                    self._partSize - self._partBytesWritten,
+                max(
+                    0,
+                    min(
+                        self.bufferSize - dataLength,
+                        self._partSize - self._partBytesWritten,
+                    ),
                 )
             )
             self._partBytesWritten += len(p)
